@@ -1230,7 +1230,11 @@ impl TypeChecker {
         span: MetaId,
         cause: Option<MetaId>,
     ) -> TypeResult<Type> {
-        if let Some(ty) = self.unify_inner(a, b) {
+        // The never type is accepted wherever another type is expected, but
+        // no other type is accepted where the never type is expected.
+        let fits = !matches!(self.resolve_type(a), Type::Never)
+            || matches!(self.resolve_type(b), Type::Never | Type::Var(_));
+        if fits && let Some(ty) = self.unify_inner(a, b) {
             Ok(ty)
         } else {
             let a = self.resolve_type(a);
